@@ -1,182 +1,224 @@
 /-
-Line-protocol driver for the dataset model (Model/Dataset.lean), same protocol
-as harness/c03.cpp.  Elements are (id, label) pairs of naturals; the harness
+Line-protocol driver for the dataset model, same protocol as harness/c03.cpp.  The state is a
+`Shared.World` (Model/DatasetShared.lean: the shared batch pointers made explicit); the value-level
+operations are those of Model/Dataset.lean.  Elements are (id, label) pairs of naturals; the harness
 encodes the id into the input type it was started with (unsigned / RealVector /
 CompressedRealVector / a user struct) and decodes it again when printing.
 
-usage: drv_c03 [input shape dims…]        (e.g. `drv_c03 3` for RealVector of dimension 3)
+usage: drv_c03 [input shape dims…] [legacy-v2d-shape]     (e.g. `drv_c03 3` for RealVector of dimension 3)
 
 Ops (slots a b c ∈ 0..3 hold datasets, v w ∈ 0..1 hold views):
-  new a m base l0 l1 …      createLabeledDataFromRange(ids base.., labels, m)
-  repart a s0 s1 …          repartition
-  splitb a b k              splitBatch(b, k)
-  splitat a b k             D[b] = splitAtElement(D[a], k)
-  splice a b k              D[b] = D[a].splice(k)
+  new a m base l0 l1 …      createLabeledDataFromRange(ids base.., labels, m)   (no labels: the empty range)
+  mk3 a n m id l            D[a] = LabeledData(n, (id,l), m)  -- Data(size, element, batchSize)
+  repart a s0 s1 …          makeIndependent(); repartition          rrepart: without makeIndependent
+  splitb a b k              makeIndependent(); splitBatch(b, k)     rsplitb: without
+  splitat a b k             makeIndependent(); D[b] = splitAtElement(D[a], k)   rsplitat: without
+  splice a b k              makeIndependent(); D[b] = D[a].splice(k)            rsplice: without
+  indep a                   D[a].makeIndependent()
   append a b                D[a].append(D[b])
   pushb a b i               D[a].push_back(D[b].batch(i))
   subset a b i0 i1 …        D[b] = D[a].indexedSubset(idx)
   subc a b c i0 i1 …        Data::indexedSubset(idx, sub, compl) on inputs and labels
   reorder a i0 i1 …         reorderElements
   shuffle a seed ! p0 p1 …  shuffle(); the permutation the real code produced is fed back as observation
-  rbc a m                   repartitionByClass(D[a], m)
+  ushuf a b seed ! p0 p1 …  u = D[a].inputs(); u.shuffle() (UnlabeledData); D[b] = LabeledData(u, D[a].labels())
+  rbc a m                   makeIndependent(); repartitionByClass(D[a], m)      rrbc: without
   bin a b c0 c1             D[b] = binarySubProblem(D[a], c0, c1)
   ovr a b c                 D[b] = oneVersusRestProblem(D[a], c)
   xform a b k mode          D[b] = transformInputs(D[a], id ↦ id + k)  (mode 0 element-wise, 1 batch-wise)
   xlab a b k                D[b] = transformLabels(D[a], l ↦ l + k)
-  copy a b                  D[b] = D[a]
+  copy a b | swap a b       D[b] = D[a] | swap(D[a], D[b])
+  setel a i id l            D[a].element(i) = (id, l)      -- in place, through the non-const element proxy
+  cpel a i j                D[a].element(i) = D[a].element(j)
   iter a p n                it = begin + p; it += n (n biased by 1000: n-1000); print index and *it
   view v a | vsub v w i… | v2d v b m | vbat v b i…    DataView operations
+  vset v i id l             V[v][i] = (id, l)              -- in place, through the view
+  vrand v w k seed ! i0 …   V[w] = randomSubset(V[v], k); the positions the real code drew are fed back
   zero                      evaluate the generated optimalBatchSizes at 0 (F1 probe)
+  reset                     destroy all datasets and views (first op of every generated history)
+After every op the whole state is printed; `ind=xy` tells whether the input / label container of a slot is
+independent (`SharedContainer::isIndependent()`, i.e. every batch pointer has use-count 1).
 -/
-import SharkVerif.Model.Dataset
+import SharkVerif.Model.DatasetShared
 open SharkVerif.Dataset SharkVerif.Gen.BatchArith
+open SharkVerif.Dataset.Shared (World PLabeled PView independent)
 
 abbrev DS := CData Nat
-instance : Inhabited DS := ⟨LabeledData.empty⟩
+abbrev W := World Nat Nat
 
 structure St where
   ishape : Shape := []
-  d : Array DS := #[LabeledData.empty, LabeledData.empty, LabeledData.empty, LabeledData.empty]
-  v : Array (Option (View Nat Nat)) := #[none, none]
+  v2dKeepShape : Bool := true     -- `legacy-v2d-shape` on the command line: toDataset as before the repair of F-C03-16
+  w : W := { d := [PLabeled.empty, PLabeled.empty, PLabeled.empty, PLabeled.empty], v := [none, none] }
 
 def showNats (l : List Nat) : String := "[" ++ " ".intercalate (l.map toString) ++ "]"
 def showEl : Option (Nat × Nat) → String
   | some (i, l) => s!"{i}:{l}"
   | none => "?"
 def showEls (l : List (Option (Nat × Nat))) : String := "[" ++ " ".intercalate (l.map showEl) ++ "]"
+def flag (b : Bool) : String := if b then "1" else "0"
 
-def showDS (k : Nat) (d : DS) : String :=
+def showDS (w : W) (k : Nat) : String :=
+  let p := w.d.getD k PLabeled.empty
+  let d : DS := w.value k
   let c := d.container
   let viaBatches := d.flat.map some
-  let bad := (if c.elementsFwd != viaBatches then ["elements"] else [])
-    ++ (if c.elementsIdx != viaBatches then ["element(i)"] else [])
-    ++ (if c.elementsRev.reverse != viaBatches then ["reverse"] else [])
-  let paths := if bad.isEmpty then "ok" else "BAD:" ++ ",".intercalate bad
+  let paths :=
+    if d.inputs.partitioning.contains 0 then "na"     -- an empty batch: the element iterator is not defined on it
+    else
+      let bad := (if c.elementsFwd != viaBatches then ["elements"] else [])
+        ++ (if c.elementsIdx != viaBatches then ["element(i)"] else [])
+        ++ (if c.elementsRev.reverse != viaBatches then ["reverse"] else [])
+      if bad.isEmpty then "ok" else "BAD:" ++ ",".intercalate bad
   s!"D{k}\{ish={showNats d.inputs.shape} lsh={showNats d.labels.shape} part={showNats d.inputs.partitioning} " ++
-  s!"lpart={showNats d.labels.partitioning} n={d.numberOfElements} el={showEls viaBatches} paths={paths}}"
+  s!"lpart={showNats d.labels.partitioning} n={d.numberOfElements} el={showEls viaBatches} paths={paths} " ++
+  s!"ind={flag (independent w.ucI p.inputs)}{flag (independent w.ucL p.labels)}}"
 
-def showView (k : Nat) : Option (View Nat Nat) → String
+def showView (w : W) (k : Nat) : String :=
+  match w.v.getD k none with
   | none => s!"V{k}\{-}"
-  | some v => s!"V{k}\{idx={showNats (v.indices.map (·.datasetIndex))} el={showEls v.elements}}"
+  | some pv =>
+    let v := w.resolveView pv
+    s!"V{k}\{idx={showNats (v.indices.map (·.datasetIndex))} el={showEls v.elements}}"
 
 def showState (s : St) : String :=
-  " ".intercalate ((List.range 4).map (fun k => showDS k (s.d[k]!)) ++ (List.range 2).map (fun k => showView k (s.v[k]!)))
+  " ".intercalate ((List.range 4).map (fun k => showDS s.w k) ++ (List.range 2).map (fun k => showView s.w k))
 
 def isPerm (p : List Nat) (n : Nat) : Bool := p.isPerm (List.range n)
+def noEmptyBatch (d : DS) : Bool := !d.inputs.partitioning.contains 0 && !d.labels.partitioning.contains 0
 
-def slotOk (a : Nat) : Bool := a < 4
-def vslotOk (a : Nat) : Bool := a < 2
-
-/-- result of an op: new state and an extra observation string -/
-def exec (s : St) (op : String) (a : List Nat) (obs : Option (List Nat)) : R (St × String) := do
-  let D (k : Nat) : R DS := if h : k < s.d.size then pure s.d[k] else throw .undefined
-  let setD (s : St) (k : Nat) (x : DS) : St := { s with d := s.d.setIfInBounds k x }
-  let V (k : Nat) : R (View Nat Nat) := match s.v[k]? with
-    | some (some v) => pure v
-    | _ => throw .undefined
+/-- result of an op: new world and an extra observation string -/
+def exec (s : St) (op : String) (a : List Nat) (obs : Option (List Nat)) : R (W × String) := do
+  let w := s.w
+  let D (k : Nat) : R DS := do let _ ← w.slot k; pure (w.value k)
+  -- ops that read elements through the iterator demand non-empty batches (the harness answers `undefined` likewise)
+  let needFull (k : Nat) : R Unit := do require (noEmptyBatch (← D k))
   match op, a with
+  | "reset", [] =>
+    -- all dataset objects and views are destroyed (first op of every generated history: histories are self-contained)
+    pure ({ d := [PLabeled.empty, PLabeled.empty, PLabeled.empty, PLabeled.empty], v := [none, none] }, "")
   | "new", a :: m :: base :: labels =>
-    require (slotOk a)
     let n := labels.length
-    let x ← LabeledData.createFromRange ((List.range n).map (· + base)) labels m s.ishape []
-    pure (setD s a x, "")
+    if n = 0 then
+      pure (← w.store a LabeledData.empty, "")      -- the empty range: an empty dataset (finding F-C03-18 where the C++ differs)
+    else
+      let x ← LabeledData.createFromRange ((List.range n).map (· + base)) labels m s.ishape []
+      pure (← w.store a x, "")
+  | "mk3", [a, n, m, id, l] => do
+    let sizes ← ofOpt (initializeBatchSizes n m)
+    let x : DS := ⟨{ batches := splitBySizes (List.replicate n id) sizes }, { batches := splitBySizes (List.replicate n l) sizes }⟩
+    pure (← w.store a x, "")
   | "repart", a :: sizes => do
-    let x ← (← D a).repartitionByLoop sizes   -- the copy loop of the C++ (= repartition, C03.repartition_loop_eq)
-    pure (setD s a x, "")
-  | "splitb", [a, b, k] => do
-    let x ← (← D a).splitBatch b k
-    pure (setD s a x, "")
+    needFull a
+    pure (← (← w.makeIndependent a).repartition a sizes, "")
+  | "rrepart", a :: sizes => do
+    needFull a
+    pure (← w.repartition a sizes, "")
+  | "splitb", [a, b, k] => do pure (← (← w.makeIndependent a).splitBatch a b k, "")
+  | "rsplitb", [a, b, k] => do pure (← w.splitBatch a b k, "")
   | "splitat", [a, b, k] => do
-    require (slotOk b && a != b)
-    let (l, r) ← (← D a).splitAtElement k
-    pure (setD (setD s a l) b r, "")
-  | "splice", [a, b, k] => do
-    require (slotOk b && a != b)
-    let (l, r) ← (← D a).splice k
-    pure (setD (setD s a l) b r, "")
+    needFull a
+    pure (← (← w.makeIndependent a).splitAtElement a b k, "")
+  | "rsplitat", [a, b, k] => do
+    needFull a
+    pure (← w.splitAtElement a b k, "")
+  | "splice", [a, b, k] => do pure (← (← w.makeIndependent a).splice a b k, "")
+  | "rsplice", [a, b, k] => do pure (← w.splice a b k, "")
+  | "indep", [a] => do pure (← w.makeIndependent a, "")
   | "append", [a, b] => do
     require (a != b)
-    let x := (← D a).append (← D b)
-    pure (setD s a x, "")
+    pure (← w.append a b, "")
   | "pushb", [a, b, i] => do
     require (a != b)
-    let src ← D b
-    let bi ← ofOpt src.inputs.batches[i]?
-    let bl ← ofOpt src.labels.batches[i]?
-    pure (setD s a ((← D a).pushBack bi bl), "")
-  | "subset", a :: b :: idx => do
-    require (slotOk b)
-    let x ← (← D a).indexedSubset idx
-    pure (setD s b x, "")
-  | "subc", a :: b :: c :: idx => do
-    require (slotOk b && slotOk c && b != c)
-    let src ← D a
-    let (si, ci) ← src.inputs.indexedSubsetCompl idx
-    let (sl, cl) ← src.labels.indexedSubsetCompl idx
-    pure (setD (setD s b (← LabeledData.mk' si sl)) c (← LabeledData.mk' ci cl), "")
+    pure (← w.pushBack a b i, "")
+  | "subset", a :: b :: idx => do pure (← w.indexedSubset a b idx, "")
+  | "subc", a :: b :: c :: idx => do pure (← w.indexedSubsetCompl a b c idx, "")
   | "reorder", a :: idx => do
-    let x ← (← D a).reorderElements idx
-    pure (setD s a x, "")
+    needFull a
+    pure (← w.reorderElements a idx, "")
   | "shuffle", [a, _seed] => do
     let src ← D a
+    needFull a
     require (src.numberOfElements > 0)
     match obs with
-    | none => pure (s, "obs=MISSING")
+    | none => pure (w, "obs=MISSING")
     | some p =>
-      if !isPerm p src.numberOfElements then pure (s, s!"obs=NOT-A-PERMUTATION{showNats p}")
-      else
-        let x ← src.reorderElements p
-        pure (setD s a x, s!"obs={showNats p}")
-  | "rbc", [a, m] => do
-    require (m > 0 && (← D a).numberOfElements > 0)
-    let x ← repartitionByClass (← D a) m
-    pure (setD s a x, "")
-  | "bin", [a, b, c0, c1] => do
-    require (slotOk b)
-    let x ← binarySubProblem (← D a) c0 c1
-    pure (setD s b x, "")
-  | "ovr", [a, b, c] => do
-    require (slotOk b)
-    let x ← oneVersusRestProblem (← D a) c
-    pure (setD s b x, "")
-  | "xform", [a, b, k, _mode] => do
-    require (slotOk b)
+      if !isPerm p src.numberOfElements then pure (w, s!"obs=NOT-A-PERMUTATION{showNats p}")
+      else pure (← w.reorderElements a p, s!"obs={showNats p}")
+  | "ushuf", [a, b, _seed] => do
     let src ← D a
-    require (src.numberOfElements > 0)   -- InferShape reads element(0)
-    let x ← src.transformInputs (· + k) s.ishape
-    pure (setD s b x, "")
+    needFull a
+    require (src.numberOfElements > 0)
+    match obs with
+    | none => pure (w, "obs=MISSING")
+    | some p =>
+      if !isPerm p src.numberOfElements then pure (w, s!"obs=NOT-A-PERMUTATION{showNats p}")
+      else pure (← w.reorderInputs a b p, s!"obs={showNats p}")
+  | "rbc", [a, m] => do
+    needFull a
+    require (m > 0 && (← D a).numberOfElements > 0)
+    pure (← (← w.makeIndependent a).repartitionByClass a m, "")
+  | "rrbc", [a, m] => do
+    needFull a
+    require (m > 0 && (← D a).numberOfElements > 0)
+    pure (← w.repartitionByClass a m, "")
+  | "bin", [a, b, c0, c1] => do
+    needFull a
+    pure (← w.binarySubProblem a b c0 c1, "")
+  | "ovr", [a, b, c] => do
+    needFull a
+    pure (← w.transformLabels a b (fun l => if l = c then 1 else 0) [], "")
+  | "xform", [a, b, k, _mode] => do
+    needFull a
+    -- InferShape reads element(0); the empty dataset (no batch at all) has no shape to infer (finding F-C03-18)
+    let src ← D a
+    require (src.numberOfElements > 0 || src.numberOfBatches = 0)
+    pure (← w.transformInputs a b (· + k) (if src.numberOfElements = 0 then [] else s.ishape), "")
   | "xlab", [a, b, k] => do
-    require (slotOk b)
-    let x ← (← D a).transformLabels (· + k) []
-    pure (setD s b x, "")
-  | "copy", [a, b] => do
-    require (slotOk b)
-    pure (setD s b (← D a), "")
+    needFull a
+    pure (← w.transformLabels a b (· + k) [], "")
+  | "copy", [a, b] => do pure (← w.copy a b, "")
+  | "swap", [a, b] => do pure (← w.swap a b, "")
+  | "setel", [a, i, id, l] => do
+    needFull a
+    pure (← w.setElement a i id l, "")
+  | "cpel", [a, i, j] => do
+    needFull a
+    let (x, y) ← ofOpt (((← D a).container.elementAt j))
+    pure (← w.setElement a i x y, "")
   | "iter", [a, p, nb] => do
+    needFull a
     let src ← D a
     let c := src.container
     let n : Int := (nb : Int) - 1000
     let it ← ofOpt (Iter.begin.advance c.sizes p)
     let it ← ofOpt (it.advance c.sizes n)
     let val := if it.pos < src.numberOfElements then showEl (c.deref it) else "end"
-    pure (s, s!"idx={it.pos} val={val}")
+    pure (w, s!"idx={it.pos} val={val}")
   | "view", [v, a] => do
-    require (vslotOk v)
-    pure ({ s with v := s.v.setIfInBounds v (some (View.ofDataset (← D a))) }, "")
-  | "vsub", v :: w :: idx => do
-    require (vslotOk w)
-    let x ← (← V v).subset idx
-    pure ({ s with v := s.v.setIfInBounds w (some x) }, "")
+    needFull a
+    pure (← w.mkView v a, "")
+  | "vsub", v :: k2 :: idx => do pure (← w.viewSubset v k2 idx, "")
+  | "vset", [v, i, id, l] => do pure (← w.viewSet v i id l, "")
+  | "vrand", [v, k2, k, _seed] => do
+    let pv ← w.view v
+    require (k ≤ pv.indices.length && pv.indices.length > 0)
+    match obs with
+    | none => pure (w, "obs=MISSING")
+    | some p =>
+      -- randomSubset: `k` distinct positions of the view
+      if p.length != k || !(p.all (· < pv.indices.length)) || !(p.eraseDups.length == p.length) then
+        pure (w, s!"obs=NOT-A-SUBSET{showNats p}")
+      else pure (← w.viewSubset v k2 p, s!"obs={showNats p}")
   | "v2d", [v, b, m] => do
-    require (slotOk b)
-    let x ← (← V v).toDataset m
-    pure (setD s b x, "")
+    let x ← (w.resolveView (← w.view v)).toDataset m s.v2dKeepShape
+    pure (← w.store b x, "")
   | "vbat", v :: b :: idx => do
-    require (slotOk b && !idx.isEmpty)
-    let els ← (← V v).subBatch idx
-    pure (setD s b (LabeledData.empty.pushBack (els.map (·.1)) (els.map (·.2))), "")
+    require (!idx.isEmpty)
+    let els ← (w.resolveView (← w.view v)).subBatch idx
+    pure (← w.store b (LabeledData.empty.pushBack (els.map (·.1)) (els.map (·.2))), "")
   | "zero", [] =>
-    pure (s, s!"obs0={match optimalBatchSizes 0 1 with | some l => showNats l | none => "undefined"}")
+    pure (w, s!"obs0={match optimalBatchSizes 0 1 with | some l => showNats l | none => "undefined"}")
   | _, _ => throw .undefined
 
 def step (s : St) (line : String) : St × String :=
@@ -192,7 +234,9 @@ def step (s : St) (line : String) : St × String :=
     | none => (s, "bad-op")
     | some a =>
       match exec s op a obs with
-      | .ok (s', extra) => (s', (if extra.isEmpty then "ok" else "ok " ++ extra) ++ " | " ++ showState s')
+      | .ok (w', extra) =>
+        let s' := { s with w := w' }
+        (s', (if extra.isEmpty then "ok" else "ok " ++ extra) ++ " | " ++ showState s')
       | .error .exception => (s, "exception | " ++ showState s)
       | .error .undefined => (s, "undefined | " ++ showState s)
 
@@ -206,4 +250,4 @@ partial def loop (h : IO.FS.Stream) (out : IO.FS.Stream) (s : St) : IO Unit := d
 
 def main (args : List String) : IO Unit := do
   let sh := args.filterMap String.toNat?
-  loop (← IO.getStdin) (← IO.getStdout) { ishape := sh }
+  loop (← IO.getStdin) (← IO.getStdout) { ishape := sh, v2dKeepShape := !args.contains "legacy-v2d-shape" }
